@@ -41,7 +41,7 @@ fn lkm_names(env: &CliEnv) -> BTreeSet<String> {
 }
 
 /// Judge one run's events and warnings.
-pub fn judge_selection(env: &CliEnv, out: &CliOut, expect: &Expect, built_to_trigger: &BTreeSet<String>, what: &str, rep: &mut Report, case: &dyn Fn() -> Value, size: u64) -> bool {
+pub fn judge_selection(_env: &CliEnv, out: &CliOut, expect: &Expect, built_to_trigger: &BTreeSet<String>, what: &str, rep: &mut Report, case: &dyn Fn() -> Value, size: u64) -> bool {
     rep.eval();
     if out.spawn_error.is_some() || out.timed_out {
         rep.inconclusive(if out.timed_out { "watchdog" } else { "spawn-error" });
